@@ -33,7 +33,9 @@ def xml_text():
     legal = st.characters(min_codepoint=0x20, max_codepoint=0x10FFFF, blacklist_categories=("Cs",),
                           blacklist_characters="￾￿")
     piece = st.sampled_from(SPECIAL) | legal | st.sampled_from("abc \t\n")
-    return st.lists(piece, max_size=8).map("".join)
+    short = st.lists(piece, max_size=8).map("".join)
+    long = st.lists(piece, min_size=120, max_size=400).map("".join)          # a full text line / paragraph
+    return st.integers(0, 24).flatmap(lambda k: long if k == 0 else short)
 
 
 def coord():
@@ -66,7 +68,10 @@ def strat():
         regions = []
         for rid in rids:
             lines = []
-            for _ in range(draw(st.integers(0, 4)) if not many else draw(st.integers(0, 1))):
+            n_lines = draw(st.integers(0, 4)) if not many else draw(st.integers(0, 1))
+            if not many and draw(st.integers(0, 19)) == 0:
+                n_lines = draw(st.integers(30, 70))        # a full page of lines in one region
+            for _ in range(n_lines):
                 lid = draw(ident.filter(lambda s: s not in used))
                 used.add(lid)
                 tr = draw(st.one_of(st.none(), st.just(""), xml_text()))
